@@ -180,3 +180,82 @@ capi_h!(capi_resolve_bad_args, {
     kani::cover!(which, "negative fd");
     kani::cover!(!which, "NULL path");
 });
+
+// ---------------------------------------------------------------------------
+// more entry points: second path argument NULL, reopen through the C entry point
+
+impl RootRef<'_> {
+    pub(crate) fn k_rename_cap<P: AsRef<Path>>(&self, _s: P, _d: P, _f: RenameFlags) -> Result<(), Error> {
+        rec_create(10, 0, 0);
+        Err(any_error())
+    }
+}
+
+macro_rules! capi2_h {
+    ($name:ident, $body:block) => {
+        #[kani::proof]
+        #[kani::unwind(8)]
+        #[kani::stub(crate::root::RootRef::create, crate::root::RootRef::k_create)]
+        #[kani::stub(crate::root::RootRef::rename, crate::root::RootRef::k_rename_cap)]
+        #[kani::stub(crate::capi::error::store_error, k_store_error)]
+        #[kani::stub(crate::syscalls::openat2, k_openat2)]
+        #[kani::stub(<std::os::unix::io::BorrowedFd<'static> as crate::utils::FdExt>::metadata, crate::utils::fd::verif_h_fd::k_metadata)]
+        #[kani::stub(crate::procfs::ProcfsHandle::open_follow, crate::procfs::ProcfsHandle::k_open_follow)]
+        #[kani::stub(crate::procfs::ProcfsHandle::new, crate::resolvers::opath::imp::verif_h_imp::k_procfs_new)]
+        #[kani::stub(alloc::fmt::format, k_format)]
+        fn $name() $body
+    };
+}
+
+capi2_h!(capi_second_path_null, {
+    let root = init();
+    let sel: u8 = kani::any();
+    kani::assume(sel < 3);
+    let ret = match sel {
+        // rename with a NULL destination, symlink / hardlink with a NULL target
+        0 => unsafe { pathrs_inroot_rename(borrow_fd(root).into(), NAME.as_ptr() as *const c_char, std::ptr::null(), kani::any()) },
+        1 => unsafe { pathrs_inroot_symlink(borrow_fd(root).into(), NAME.as_ptr() as *const c_char, std::ptr::null()) },
+        _ => unsafe { pathrs_inroot_hardlink(borrow_fd(root).into(), NAME.as_ptr() as *const c_char, std::ptr::null()) },
+    };
+    let (_k, _m, _d, calls) = crate::verif_kani::kernel::scratch_get();
+    assert!(ret <= -4096, "NULL path must yield an error id");
+    assert!(calls == 0, "operation reached with a NULL path");
+    assert!(counter_get(2) == 1);
+    let k = kref();
+    assert!(k.n_open() == 1 && !k.any_violation() && k.ent(root).unwrap().open);
+    kani::cover!(sel == 0, "rename");
+    kani::cover!(sel == 2, "hardlink");
+});
+
+capi2_h!(capi_reopen_entry, {
+    // pathrs_reopen: negative descriptors refused; creation flags refused at the C boundary too
+    install_close_model();
+    reset(3);
+    counter_reset();
+    crate::verif_kani::kernel::of_set(0, 0, false, -1);
+    let fd = given_fd(true);
+    {
+        let k = kmut();
+        let i = k.idx(fd).unwrap();
+        kani::assume(k.fds[i].st_mode & libc::S_IFMT != libc::S_IFLNK);
+    }
+    let raw: i32 = if kani::any() { fd } else { let r: i32 = kani::any(); kani::assume(r < 0); r };
+    let bits: i32 = kani::any();
+    let creation = bits & (libc::O_CREAT | libc::O_EXCL) != 0 || bits & libc::O_TMPFILE == libc::O_TMPFILE;
+    let ret = pathrs_reopen(CBorrowedFd::verif_raw(raw), bits);
+    let (calls, oflags, _ts, opened) = crate::verif_kani::kernel::of_get();
+    if raw < 0 {
+        assert!(ret <= -4096 && calls == 0 && kref().ncalls == 0);
+    } else if creation {
+        assert!(ret <= -4096, "pathrs_reopen must refuse creation flags");
+        assert!(calls == 0, "creation flags reached the procfs open");
+    } else if ret >= 0 {
+        assert!(calls == 1 && ret == opened && oflags == bits & !libc::O_NOFOLLOW);
+    } else {
+        assert!(ret <= -4096);
+    }
+    assert!(kref().ent(fd).unwrap().open && !kref().any_violation());
+    kani::cover!(ret >= 0, "reopened");
+    kani::cover!(raw >= 0 && creation, "creation flags refused");
+    kani::cover!(raw < 0, "negative fd refused");
+});
